@@ -18,12 +18,17 @@ ASSUMPTIONS = [
     "`c` values are 7-bit code points; `s` values are ASCII bytes without NUL except NUL padding above the text.",
     "A small fixed list of specifications outside the grammar must be rejected when the Format is built.",
     "If several assertions fail at the same edge, any one that is first in its own (module, domain) process may be reported.",
+    "Print statements also take several arguments (a Format, plain strings incl. the empty one, bare values) with sep / end as "
+    "Python's print(); widths may come from nested replacement fields with automatic numbering.",
+    "Continuing without reset after a caught AssertionError (half of the runs; input writes only, no clock edge): the interrupted "
+    "delta cycle may still deliver what *other* processes owed for that edge (their messages, their failing assertions, each "
+    "once); the process whose assertion fired must stay silent.",
 ]
 COMPONENTS = {"real": ["amaranth.hdl._ast.Format / Print / Assert / Assume (validation)", "amaranth.sim._pyrtl.emit_format / on_Print / "
                        "on_Property", "amaranth.sim._pyeval.value_to_string", "amaranth.hdl._dsl control flow", "amaranth.sim.pysim"],
               "stub": ["PermSet scheduler seam", "clock/reset driver", "reference interpreter + str.format"]}
 EXPECTED_PROBES = ("sched", "coincide", "inactive", "srst", "arst", "restart", "restart_after_assertion", "printed", "assert_fired",
-                   "silent_steps", "two_processes_printed",
+                   "silent_steps", "two_processes_printed", "continued_after_assertion",
                    "spec_c", "spec_s", "signed_value_printed", "invalid_specs_rejected")
 OPTS = {"max_domains": 2, "max_modules": 3, "wrappers": False, "prints": True, "asserts": True, "fsm": True, "max_stmts": 5, "depth": 1}
 INVALID_SPECS = ["^5", "<^3", ",", "5,d", "n", ".3", "5.2d", "f", "e", "%", "q", "+s", "#c", "05s", "=4c", "_s", "00d", "+-d"]
@@ -48,7 +53,7 @@ def gen_case(seed, tier):
     n = cfg.randint(8, 50) if tier == "quick" else cfg.randint(8, 160)
     steps = progdrv.gen_steps(prog, wl, fl, n, p_reset=fl.choice([0.0, 0.1, 0.2]), p_coincide=fl.choice([0.0, 0.4, 0.8]))
     return {"prog": prog, "sched": {"mode": sc.choice(["seeded", "seeded", "reverse", "insertion"]), "seed": sc.randrange(1 << 32)},
-            "steps": steps, "restart": fl.random() < 0.5}
+            "steps": steps, "restart": fl.random() < 0.5, "continue_after_assert": fl.random() < 0.5}
 
 
 def _concat_match(text, blocks):
@@ -152,6 +157,57 @@ def run_case(case):
                 raise Violation("assert_message", idx, {"message": msg[:300], "acceptable": [a[:300] for a in acceptable][:4]})
             P["assert_fired"] += 1
             pr.dig.add(("assert", sorted(acceptable)), state=False)     # which of several failing assertions fires first is free
+            fired = [key for key, (kind, m) in firsts.items()
+                     if ("Assertion violated" if kind == "assert" else "Assumption violated") + (": " + m if m is not None else "") == msg]
+            if case.get("continue_after_assert") and len(fired) == 1:
+                # the caller catches the AssertionError and goes on using the same simulation (no reset), with input writes only
+                # (no clock edge).  The interrupted delta cycle may still owe the work of *other* processes of that edge (their
+                # messages, their failing assertions - each once); the process whose assertion fired must not run again.
+                pool_texts = [t for (mi, dom, t) in ref.prints if (mi, dom) != fired[0] and t]
+                pool_msgs = [("Assertion violated" if kind == "assert" else "Assumption violated") + (": " + m if m is not None else "")
+                             for key, (kind, m) in firsts.items() if key != fired[0]]
+
+                def take(text):
+                    """remove from the pool a sequence of owed messages that spells `text`; False if there is none"""
+                    if not text:
+                        return True
+                    for k, t in enumerate(pool_texts):
+                        if text.startswith(t):
+                            rest = pool_texts[:k] + pool_texts[k + 1:]
+                            saved = list(pool_texts)
+                            pool_texts[:] = rest
+                            if take(text[len(t):]):
+                                return True
+                            pool_texts[:] = saved
+                    return False
+                drv.take_stdout()       # (what the failing edge itself printed before it stopped is not judged)
+                done = 0
+                for st2 in case["steps"][idx + 1:]:
+                    if done >= 6:
+                        break
+                    if st2["k"] != "set":
+                        continue
+                    si = st2["s"]
+                    if si >= len(case["prog"]["signals"]) or case["prog"]["signals"][si]["role"] not in ("input", "ctl"):
+                        continue
+                    sg = pr.B.sigs[si]
+                    v = st2["v"] & ((1 << len(sg)) - 1)
+                    done += 1
+                    try:
+                        drv.set(sg, v - (1 << len(sg)) if (case["prog"]["signals"][si]["signed"] and len(sg) and v >> (len(sg) - 1)) else v)
+                    except AssertionError as e2:
+                        if str(e2) in pool_msgs:
+                            pool_msgs.remove(str(e2))
+                            P["owed_assertion_after_continue"] = P.get("owed_assertion_after_continue", 0) + 1
+                        else:
+                            raise Violation("assert_raised_without_edge", idx, {"message": str(e2)[:300], "after": "an assertion "
+                                                                               "that the caller caught; no clock edge since"})
+                    out2 = drv.take_stdout()
+                    if out2 and not take(out2):
+                        raise Violation("printed_without_active_edge", idx, {"text": out2[:200], "after": "a caught assertion",
+                                                                             "owed_by_other_processes": pool_texts[:6]})
+                if done:
+                    P["continued_after_assertion"] = P.get("continued_after_assertion", 0) + 1
             raise Stop()
 
         if '"c"' in txt or 'c"]' in txt:
